@@ -261,7 +261,9 @@ class Extractor:
     def docstring(self, fn):
         if fn.body and isinstance(fn.body[0], ast.Expr) and isinstance(fn.body[0].value, ast.Constant) and isinstance(fn.body[0].value.value, str):
             raw = fn.body[0].value.value
-            return {"clean": inspect.cleandoc(raw), "raw": raw, "has_tab": "\t" in raw}
+            # tabs only matter (cleandoc expands them) on lines that have text; a whitespace-only
+            # line is blank either way
+            return {"clean": inspect.cleandoc(raw), "raw": raw, "has_tab": any("\t" in l for l in raw.splitlines() if l.strip())}
         return None
 
     def visit_function(self, fn, in_class):
